@@ -74,8 +74,8 @@ Proof.
   unfold of_map. rewrite routed_flat_map. apply covers_flat_map. intros kv _. autorewrite with routed. apply covers_refl.
 Qed.
 
-(* THE routing theorem: every scalar at a value position of the AST that
-   contains a placeholder is handed to an expression checker, or is exempt *)
+(* THE routing theorem: every scalar at a value position of the AST is handed
+   to an expression checker, or is exempt (a step id: when it contains a placeholder) *)
 Theorem routed_complete_fixed w :
   wfb w = true -> covers (ast_scalars w) (routed_scalars (visit fx w)).
 Proof.
@@ -98,3 +98,9 @@ Proof.
   - covers_search ltac:(unfold of_map; apply covers_flat_map; intros kj Hkj; apply job_covers; exact (forallb_In _ _ _ Hjobs Hkj)).
 Qed.
 End Fixed.
+
+Theorem routed_complete w s :
+  wfb w = true -> In s (ast_scalars w) ->
+  (sc_field s = "Step.ID" -> contains_expr (sval (sc_str s)) = true) ->
+  In s (routed_scalars (visit fixed w)) \/ exempt s.
+Proof. intros Hok Hin Hp. exact (routed_complete_fixed w Hok s Hin Hp). Qed.
